@@ -234,6 +234,9 @@ def c07():
         j("c07_tri_direct_wild_2", Q, 200, "EntityDirect<_> minted per visit", role="iter_destroy_minted_direct"),
         j("c07_tri_direct_wild_3", T, 300, "EntityDirect<_> minted per visit N=3", role="iter_destroy_minted_direct"),
         j("c07_shared_direct_2_1", T, 400, "direct handles minted in both archetypes", role="iter_destroy_minted_direct"),
+        # WHICH archetypes a destroy pass covers when the closure carries cfg-disabled or OneOf parameters (real programs)
+        J("c16_iter_destroy_cfg_component", Q, 100, what="ecs_iter_destroy! with a cfg-disabled component parameter only one archetype has: the pass covers every archetype the erased query matches", bounds="one world", assumes=()),
+        J("c05_iter_destroy_one_of", Q, 200, what="ecs_iter_destroy! over {C} and OneOf<B, D>: visits and destroys exactly the entities of the two matching archetypes", bounds="world of 4 archetypes, populations <= 2", assumes=()),
     ]
 
 
@@ -435,6 +438,11 @@ def c14_e1():
         J("c14_direct_conversions", Q, 60, what="same for direct handles and SelectEntityDirect", bounds=b),
         J("c14_tables_descending_ids", Q, 100, what="generated tables of a world whose explicit ids descend in declaration order: entity AND direct handles select their own archetype's variant; world-level dynamic-key calls routed accordingly", bounds=b),
         J("c14_created_ids", Q, 100, what="archetype_id() of created handles == ARCHETYPE_ID; From<Entity<A>> for Select*", bounds=b, assumes=(INV_ASSUME,)),
+        # conversions performed by the LOOKUP API (to_direct = entity handle -> direct handle) on handles of another archetype:
+        # refused, never re-stamped with the probed archetype's id
+        J("c03_forged_arch_foo_3", Q, 150, what="Archetype::to_direct / resolve / view / borrow with an arbitrary (also foreign-id) dynamic handle: a foreign id is refused, an accepted handle converts to (its own dense index, current version)", bounds=b, assumes=(INV_ASSUME,), allowed=(CLEAN_ENTITY,)),
+        J("c03_foreign_direct_foo_3", Q, 100, what="a direct handle carrying another archetype's id is refused by every archetype-level conversion / lookup", bounds=b, assumes=(INV_ASSUME,), allowed=(CLEAN_DIRECT,)),
+        J("c03_forged_arch_foo_3", T, 150, what="same with debug assertions off", bounds=b, assumes=(INV_ASSUME,), debug_assertions=False),
     ]
 
 
